@@ -2,6 +2,7 @@
 
 mod c10;
 mod c11;
+mod c13;
 mod c18;
 mod sim;
 
@@ -46,7 +47,7 @@ fn quiet_panics() {
     std::panic::set_hook(Box::new(|_| {}));
 }
 
-fn evidence_path(id: &str) -> String {
+pub fn evidence_path(id: &str) -> String {
     std::env::var("EVIDENCE_PART").unwrap_or_else(|_| format!("{}/evidence/{}.json", verif_root(), id))
 }
 
@@ -342,6 +343,7 @@ fn main() {
         }
         Some("C11") => main_c11(&tier, seed, replay.as_deref()),
         Some("C10") => c10::main_c10(&tier, seed, replay.as_deref()),
+        Some("C13") => c13::main_c13(&tier, seed, replay.as_deref()),
         Some("C18") => c18::main_c18(&tier, seed, replay.as_deref()),
         _ => {
             eprintln!("usage: deltasim-inproc C11|C10|C18 quick|thorough [--replay file]");
